@@ -374,10 +374,30 @@ def user_part(ctx):
         yield None
         yield from package
 
+    def keep_first(package):
+        # a package function may drop trailing resources: trim the descriptor, hand on only the first stream
+        package.pkg.descriptor['resources'] = package.pkg.descriptor['resources'][:1]
+        yield package.pkg
+        for i, res in enumerate(package):
+            yield res
+            if i == 0:
+                break
+
+    def drop_last(package):
+        n = len(package.pkg.descriptor['resources'])
+        package.pkg.descriptor['resources'] = package.pkg.descriptor['resources'][:max(1, n - 1)]
+        yield package.pkg
+        for i, res in enumerate(package):
+            if i < max(1, n - 1):
+                yield res
+            if i + 1 >= max(1, n - 1):
+                break
+
     def mk_steps():
         pool = [
             ('bound-mut', lambda: Obj(3).mut), ('callable-obj', lambda: Obj(0)), ('partial-new-row', lambda: functools.partial(add_k, 2)),
             ('bound-rows-filter', lambda: Obj(4).keep), ('package-edit', lambda: edit_pkg), ('package-none', lambda: pkg_none),
+            ('package-keep-first', lambda: keep_first), ('package-drop-last', lambda: drop_last),
             ('lambda-row', lambda: (lambda row: row.update(a=row['a'] - 1))),
             ('duplicate', lambda: DF.duplicate(batch_size=rng.choice([1, 7, 1000]))),
             ('duplicate-end', lambda: DF.duplicate(duplicate_to_end=True)),
@@ -431,7 +451,12 @@ def user_part(ctx):
             except Exception as e:  # noqa
                 staged = {'err': S.classify_exc(e)}
                 break
-        if S.norm_result(lazy) != S.norm_result(staged):
+        unread = any(l in ('package-keep-first', 'package-drop-last') for l in labels)
+        if unread and 'err' in staged and 'ok' in lazy:
+            # a step fails on rows of a resource that a later package function drops without reading: the lazy
+            # run never computes those rows; the sequence is not well-typed for step-by-step evaluation
+            rep.hist('user_outcome', 'staged-fails-on-rows-never-read')
+        elif S.norm_result(lazy) != S.norm_result(staged):
             sig = 'user:lazy-vs-staged'
             rep.fail(sig, case, {'lazy': str(S.norm_result(lazy))[:1500], 'staged': str(S.norm_result(staged))[:1500]})
         if 'ok' in lazy and len(facts) >= 2:
